@@ -100,8 +100,13 @@ INVARIANT EmitBeh
 INVARIANT Inv
 CHECK_DEADLOCK FALSE
 """
-    recs = ctx.tlc_emit("Gen_Dom", cfg=cfg, simulate=num, depth=depth + 1, workers=workers, timeout=3000, xmx="8g")
-    ctx.log(f"Gen_Dom: {len(recs)} behaviours of {depth} steps from TLC simulation ({ctx.tlc_runs[-1]['wall']}s)")
+    # one single-worker TLC per seed: long behaviours give lines above the 8 KiB chunks in which the workers of one TLC
+    # process append to the output file (torn lines)
+    per = num
+    parts = parallel(lambda k: ctx.tlc_emit("Gen_Dom", cfg=cfg, simulate=per, depth=depth + 1, workers=1, timeout=3000, xmx="3g",
+                                            tag=f"Gen_Dom_w{k}", seed=ctx.seed * 100 + k), list(range(workers)), workers=workers)
+    recs = [r for part in parts for r in part]
+    ctx.log(f"Gen_Dom: {len(recs)} behaviours of {depth} steps from TLC simulation ({workers} x {per} walks)")
     return recs
 
 
@@ -365,7 +370,7 @@ def run_prop(prop, tier, rule):
         ctx.add_fail(dict(property=prop, kind="model", sig="model-invariant", shape=dict(kind="model"),
                           detail="an invariant of spec/Dom.tla is violated in MC_Dom (see TLC output): " + r["out"][-1500:],
                           case=dict(tlc_tail=r["out"][-3000:]), build="tlc", replay=dict(harness="MC_Dom")))
-    recs = gen_behaviours(ctx, 60 if q else 1500, 25 if q else 40)
+    recs = gen_behaviours(ctx, 60 if q else 200, 25 if q else 40)
     recs = recs + gen_focus(ctx, 3 if q else 4)
     rows = rows_of(recs)
     builds = ["asan-avx2", "prod-avx2"] if q else ["asan-avx2", "prod-avx2", "asan-sse", "prod-dyn"]
